@@ -28,14 +28,17 @@ TECHNIQUE = 'Coq proof by induction over the call history on an explicit buffer 
 def small_image(rng, depth):
     return C06.mk(rng, depth, rng.choice([3, 4, 8, 9]), rng.choice([1, 2, 3]), rng.choice([0, 0, 1]), rng.choice([0, 0, 2]))
 
-def bitd_call(c, palette=b'', name='systemMac'):
+PALETTE_NAMES = ['systemMac', 'systemMac', 'systemWin', 'grayscale', 'none', '-66', 'default']
+def bitd_call(c, palette=b'', name='systemMac', rng=None):
     bw, bh, depth, pw, ph, data = C06.args_of(c)
+    if rng is not None:
+        name = rng.choice(PALETTE_NAMES)       # named tables exist per depth; unknown names fall back to the default table
     return {'k': 'bitd', 'args': [bw, bh, depth, pw, ph, name, palette, data]}
 
 def failing_bitd(rng):
     depth = rng.choice([1, 8, 8, 16, 32, 24, 4])
     base = small_image(rng, depth if depth not in (24, 4) else 32)
-    call = bitd_call(base)
+    call = bitd_call(base, rng=rng)
     call['args'][2] = depth
     r = rng.random()
     data = call['args'][7]
@@ -82,6 +85,13 @@ def other_call(rng, fail):
     return {'k': 'cast', 'data': d}
 
 def gen_cases(rng, tier):
+    # the same (named or unknown) palette asked for at two depths in one process; a 4-bit decode always fails part-way
+    for d1, d2 in [(4, 8), (8, 4), (1, 8), (8, 1)]:
+        for n1 in ['systemMac', 'systemWin', 'none', '-66']:
+            for n2 in ['systemMac', 'systemWin', 'none', '-66']:
+                c1 = bitd_call(small_image(rng, d1 if d1 != 4 else 8), name=n1); c1['args'][2] = d1
+                c2 = bitd_call(small_image(rng, d2 if d2 != 4 else 8), name=n2); c2['args'][2] = d2
+                yield {'hist': [c1, c2]}
     n = 150 if tier == 'quick' else 4000
     for k in range(n):
         hist = []
@@ -92,14 +102,14 @@ def gen_cases(rng, tier):
             hist.append(f)
             d = f['args'][2] if f['args'][2] in (1, 8, 16, 32) else 8
             for _ in range(ln - 1):
-                hist.append(bitd_call(small_image(rng, rng.choice([d, d, 1, 8, 16, 32]))))
+                hist.append(bitd_call(small_image(rng, rng.choice([d, d, 1, 8, 16, 32])), rng=rng))
         else:
             for _ in range(ln):
                 r = rng.random()
                 if r < 0.3:
                     hist.append(failing_bitd(rng))
                 elif r < 0.65:
-                    hist.append(bitd_call(small_image(rng, rng.choice([1, 8, 16, 32]))))
+                    hist.append(bitd_call(small_image(rng, rng.choice([1, 8, 16, 32])), rng=rng))
                 else:
                     hist.append(other_call(rng, rng.random() < 0.4))
         yield {'hist': hist}
@@ -200,6 +210,49 @@ def oracle(c, ir):
                 k, c['hist'][k]['k'], a[0], ' %d bytes' % len(a[1]) if a[0] == 'ok' and isinstance(a[1], bytes) else '',
                 b[0], ' %d bytes' % len(b[1]) if b[0] == 'ok' and isinstance(b[1], bytes) else '')
     return None
+
+_PRISTINE = r"""
+import sys, json
+sys.path.insert(0, %r)
+from props import C13
+c = C13.case_from_json(json.loads(sys.stdin.read()))
+r = C13.simplify(C13.call_impl(C13.one_call, c))
+print(json.dumps(C13.case_to_json(list(r))))
+"""
+def pristine_call(call):
+    """the result of one call in a fresh interpreter (no earlier call, no module state of this process)"""
+    import subprocess, json as _json
+    from framework import REPO
+    tie = os.path.dirname(os.path.dirname(os.path.abspath(__file__)))
+    try:
+        p = subprocess.run([sys.executable, '-c', _PRISTINE % tie], input=_json.dumps(case_to_json(call)).encode(),
+                           stdout=subprocess.PIPE, stderr=subprocess.DEVNULL, timeout=120, env=dict(os.environ, PYTHONPATH=REPO))
+        return tuple(case_from_json(_json.loads(p.stdout.decode())))
+    except Exception:
+        return None
+
+def judge(c, ir, mv):
+    """the property itself first (history vs single calls of this process); when the model - which has no history - disagrees
+    with a call of the history, that call is repeated in a pristine interpreter: module state the harness does not know of
+    pollutes the single calls of this process as well"""
+    out = []
+    f = oracle(c, ir)
+    if f:
+        return [(f, 'property', None)]
+    if mv is None:
+        return out
+    d = compare(c, ir, mv)
+    if d:
+        for k, call in enumerate(c['hist']):
+            pr = pristine_call(call)
+            if pr is not None and pr != ir[1]['hist'][k]:
+                return [('call %d (%s) gives %s after the earlier calls of the history but %s in a fresh interpreter' % (
+                    k, call['k'], describe_result(ir[1]['hist'][k]), describe_result(pr)), 'property', None)]
+        out.append((d, 'correspondence', None))
+    return out
+
+def describe_result(r):
+    return '%s%s' % (r[0], ' %d bytes' % len(r[1]) if r[0] == 'ok' and isinstance(r[1], (bytes, bytearray)) else '')
 
 def shrink_candidates(c):
     h = c['hist']
